@@ -18,6 +18,10 @@
 //
 // Round 8 (draws.go): the proxy's random source (crypto/rand.Reader) is scripted by the scenario - pairwise different
 // draws that differ in a single byte, at every position - and all context ids and session ids must still differ.
+//
+// Round 8b: Proxy.Close() is called while an exchange is in flight ("closing": the request modifier of the last
+// exchange of the connection starts Close() on a thread of its own and returns once Proxy.Closing() reports true);
+// the exchange is owed everything the statement promises any other exchange.
 package main
 
 import (
@@ -80,6 +84,11 @@ func (s scenario) String() string {
 	return out
 }
 
+// closes: round 8b - the request modifier of the last exchange of connection 0 calls Proxy.Close() (on another thread).
+func (s scenario) closes() bool {
+	return len(s.Beh) > 0 && has(s.Beh[len(s.Beh)-1], "closing")
+}
+
 func (s scenario) mode2() string {
 	if s.Mode2 == "" {
 		return "plain"
@@ -108,7 +117,7 @@ func (s scenario) spec(conn string) (string, []string) {
 // mutates: every behaviour except the literal "pass" also changes the messages: the request modifier sets
 // X-Req-Mut and the response modifier X-Res-Mut to "<conn>/<seq>" (the "mutate" value of the statement's
 // quantifier; "mut" is the behaviour that does only this).
-func mutates(beh string) bool { return beh != "pass" }
+func mutates(beh string) bool { return beh != "pass" && beh != "closing" }
 
 // expect returns how many exchanges of a connection the modifiers must see and which of them hijacks (-1: none).
 func expect(mode string, beh []string) (nExpected, hijackedAt int) {
@@ -232,6 +241,10 @@ func run(sc scenario) (body func(), check func(r *vrt.Result) []finding) {
 	var hijackRetTick map[string]int
 	var srvConn map[string]*simnet.Conn
 	var rnd *scriptedRand
+	// round 8b: Proxy.Close() called while an exchange is in flight
+	var closeT *vrt.Thread // the thread that calls Proxy.Close()
+	var closeRet bool      // Close() returned
+	var closeSeen bool     // the request modifier saw Proxy.Closing() == true before it returned
 	behOf := func(conn, seq string) string {
 		_, beh := sc.spec(conn)
 		var k int
@@ -248,6 +261,7 @@ func run(sc scenario) (body func(), check func(r *vrt.Result) []finding) {
 		hijackRetTick = map[string]int{}
 		srvConn = map[string]*simnet.Conn{}
 		staleCtx = 0
+		closeT, closeRet, closeSeen = nil, false, false
 		// the random source belongs to the scenario (round 8): a scripted one for this execution, else the
 		// operating system's; put back when the execution ends
 		rnd = nil
@@ -365,6 +379,19 @@ func run(sc scenario) (body func(), check func(r *vrt.Result) []finding) {
 			if has(b, "hijack-req") {
 				hijack(req)
 				hijackRetTick[c.Conn] = vrt.Tick()
+			}
+			if has(b, "closing") && closeT == nil {
+				// round 8b: the proxy is shut down while this exchange is in flight. Close() runs on a thread of its
+				// own (it returns only when the connection is over); the modifier returns once the proxy reports that
+				// it is closing. No sleep: Closing() polls the closing channel, every poll is a scheduling point, and a
+				// repeated poll parks this thread until some other thread has written something.
+				closeT = vrt.GoNamed("closer", func() {
+					w.Proxy.Close()
+					closeRet = true
+				})
+				for !w.Proxy.Closing() {
+				}
+				closeSeen = true
 			}
 			if has(b, "reqerr") {
 				return errMsg(b, "reqerr", "request modifier failed")
@@ -615,7 +642,7 @@ func run(sc scenario) (body func(), check func(r *vrt.Result) []finding) {
 			t1 = vrt.GoNamed("client1", func() { client("1", sc.mode2(), sc.beh2(), false) })
 		}
 		vrt.WaitQuiescent()
-		if !t0.Done() || (t1 != nil && !t1.Done()) {
+		if !t0.Done() || (t1 != nil && !t1.Done()) || (closeT != nil && !closeT.Done()) {
 			vrt.Sleep(11 * time.Minute)
 			vrt.WaitQuiescent()
 		}
@@ -640,6 +667,9 @@ func run(sc scenario) (body func(), check func(r *vrt.Result) []finding) {
 			vrt.Log("client %s: %v %v %q marker=%v eof=%v extra=%q err=%q done=%v", o.conn, o.statuses, o.warnings, o.resMut, o.gotMarker, o.eofAfter, o.extra, o.err, o.done)
 		}
 		vrt.Log("stale=%d", staleCtx)
+		if sc.closes() {
+			vrt.Log("Close() called=%v, Closing() seen by the request modifier=%v, Close() returned=%v", closeT != nil, closeSeen, closeRet)
+		}
 		if rnd != nil {
 			vrt.Log("random draws served: %d", len(rnd.served))
 		}
@@ -1019,6 +1049,21 @@ func run(sc scenario) (body func(), check func(r *vrt.Result) []finding) {
 			}
 			checkClient(o)
 		}
+		if sc.closes() {
+			// round 8b. The exchange during whose request modifier Close() was called is judged above like any other
+			// (whether its response is marked Connection: close is C07's business). Here: the scenario did what it is
+			// there for, and it came to an end - Close() waits for the connection, which ends with this exchange.
+			switch {
+			case closeT == nil:
+				if n := len(reqs[key{"0", fmt.Sprint(len(sc.Beh) - 1)}]); n != 0 {
+					add("harness:close_not_called:"+tag, "the request modifier of the last exchange ran %d times but Proxy.Close() was not called", n)
+				}
+			case !closeSeen:
+				add("closing_never_reported:"+tag, "Proxy.Close() was called from the request modifier of the last exchange, but Proxy.Closing() never reported true to it (the modifier never returned)")
+			case !closeRet:
+				add("close_stuck:"+tag, "Proxy.Close(), called while the last exchange of the only connection was in flight, had not returned when everything else had ended and the idle timeout had passed")
+			}
+		}
 		if staleCtx != 0 {
 			add("context_leak:"+tag, "%d requests of finished exchanges still resolve to a context (martian.NewContext)", staleCtx)
 		}
@@ -1170,10 +1215,49 @@ func scenarios(tier string) []scenario {
 			scenario{Mode: mode, Beh: []string{"pass", "mut"}, Second: true, Mode2: mode, Beh2: []string{"pass", "hijack-req"}},
 			scenario{Mode: mode, Beh: []string{"reqerr", "skip"}, Second: true, Mode2: mode, Beh2: []string{"mut", "rterr"}, After: true})
 	}
+	// round 8b: Proxy.Close() while an exchange is in flight
+	out = append(out, closingScenarios()...)
 	// round 7: request spellings (target form x Host header x protocol version), see spell.go
 	out = append(out, spellScenarios(tier)...)
 	// round 8: the random source scripted - pairwise different draws that differ in one byte only, see draws.go
 	out = append(out, drawScenarios(tier)...)
+	return out
+}
+
+// closingScenarios (round 8b): the proxy is shut down while an exchange is in flight. "closing" = the request modifier
+// starts Proxy.Close() on another thread and returns when Proxy.Closing() reports true; it is always the last exchange
+// of the only connection of its scenario (Close() ends the connection after it, and nothing is accepted afterwards).
+// Combined with what else the modifiers / the round trip of that exchange do, with what the connection carried before,
+// with pipelining, and with the proxy modes.
+func closingScenarios() []scenario {
+	var out []scenario
+	last := []string{"closing", "reqerr+closing", "reserr+closing", "skip+closing", "rterr+closing", "mut+closing"}
+	before := []string{"pass", "reqerr", "reserr", "skip", "rterr", "mut"}
+	for _, y := range last {
+		out = append(out, scenario{Mode: "plain", Beh: []string{y}})
+		for _, x := range before {
+			out = append(out, scenario{Mode: "plain", Beh: []string{x, y}}, scenario{Mode: "plain", Beh: []string{x, y}, Pipe: true})
+		}
+	}
+	// a blind tunnel: the CONNECT exchange is the only one (the tunnel behind it lives on until the client is done)
+	for _, y := range []string{"closing", "reqerr+closing", "reserr+closing", "skip+closing", "mut+closing", "dialerr+closing"} {
+		out = append(out, scenario{Mode: "blind", Beh: []string{y}})
+		if !has(y, "dialerr") {
+			out = append(out, scenario{Mode: "blind", Beh: []string{y}, Down: true})
+		}
+	}
+	out = append(out, scenario{Mode: "blind", Beh: []string{"downerr+closing"}, Down: true})
+	// inside an intercepted tunnel
+	for _, y := range last {
+		for _, b0 := range []string{"pass", "reqerr", "mut"} {
+			out = append(out, scenario{Mode: "mitm-plain", Beh: []string{b0, y}})
+		}
+		for _, x := range []string{"pass", "skip", "rterr"} {
+			out = append(out, scenario{Mode: "mitm-plain", Beh: []string{"pass", x, y}})
+		}
+		out = append(out, scenario{Mode: "mitm-plain", Beh: []string{"pass", "pass", y}, Pipe: true})
+		out = append(out, scenario{Mode: "mitm-tls", Beh: []string{"pass", y}})
+	}
 	return out
 }
 
@@ -1184,7 +1268,7 @@ func added(sc scenario) bool {
 	}
 	for i, b := range sc.Beh {
 		for _, p := range strings.Split(b, "+") {
-			if p == "mut" || p == "post" || p == "gone" || p == "downerr" {
+			if p == "mut" || p == "post" || p == "gone" || p == "downerr" || p == "closing" {
 				return true
 			}
 		}
@@ -1213,12 +1297,12 @@ func main() {
 	tier := lib.Tier()
 	initMITM()
 	scen := scenarios(tier)
-	if fam := os.Getenv("C02_ONLY"); fam == "spell" || fam == "draws" {
+	if fam := os.Getenv("C02_ONLY"); fam == "spell" || fam == "draws" || fam == "closing" {
 		// development aid: only the request-spelling family of round 7 / the random-draw family of round 8 (to
 		// measure it on its own)
 		var only []scenario
 		for _, sc := range scen {
-			if (sc.Spell != nil && fam == "spell") || (sc.Draws != "" && fam == "draws") {
+			if (sc.Spell != nil && fam == "spell") || (sc.Draws != "" && fam == "draws") || (sc.closes() && fam == "closing") {
 				only = append(only, sc)
 			}
 		}
@@ -1394,6 +1478,14 @@ func main() {
 		}
 	}
 	rep.Coverage["scenarios_scripted_random_source"] = nDraws
+	nClosing := 0
+	for _, sc := range scen {
+		if sc.closes() {
+			nClosing++
+		}
+	}
+	rep.Coverage["scenarios_close_in_flight"] = nClosing
+	rep.Coverage["close_in_flight"] = fmt.Sprintf("%d scenarios in which Proxy.Close() is called (on a thread of its own) by the request modifier of the last exchange of the only connection, which returns once Proxy.Closing() reports true: that exchange x {pass, reqerr, reserr, skip, rterr, mut} alone / after each of {pass, reqerr, reserr, skip, rterr, mut} on the same connection (also pipelined); a blind CONNECT (direct / downstream proxy / dial or downstream failure); the last of one or two exchanges inside an intercepted tunnel (plaintext; TLS: one); the whole oracle applies to that exchange unchanged, and Close() must have returned at the end", nClosing)
 	rep.Coverage["scripted_random_source"] = fmt.Sprintf("%d scenarios in which crypto/rand.Reader is a scripted reader for the execution: all draws pairwise different 8-byte values that differ in byte p only (p = 0..7: common prefix of p and common suffix of 7-p bytes) x differing in the low bits / in the high nibble only x common byte value; shapes: two concurrent plain connections with two exchanges each plus a later one, two intercepted plaintext tunnels, a blind tunnel beside a plain connection and a later one (thorough: also three exchanges on one connection, pipelined beside a second connection, tunnel with two inner exchanges); oracle: all context ids of the execution and the session ids of different connections pairwise different", nDraws)
 	rep.Coverage["request_spellings"] = fmt.Sprintf("%d spellings = target form %v x Host header %v x version %v; each x 7 behaviours (pass, route = the request modifier names the host of a request that names none, skip, reqerr, route+reserr, hijack-req, route+hijack-res) as a single exchange, keep-alive spellings followed by every spelling on the same connection, every spelling as the first request inside an intercepted tunnel", len(allSpellings()), spellForms, spellHosts, spellVersions)
 	rep.Coverage["bounds"] = fmt.Sprintf("%d scenarios (%d of them from the audit, AUDIT.md): plain mode with all behaviour sequences (30 behaviours incl. combinations: errors with one- and multi-line messages, two errors on one response, skip round trip combined with the other context marks in both orders, a RoundTripper answering on a clone of the request, modifiers that change the messages, requests with a body that a skipped or failed round trip leaves unread, hijackers whose modifier also fails, clients that close behind their request; the eleven newest paired with the eight basic ones) up to length %d, blind CONNECT x 16 behaviours (direct / through a downstream proxy), MITM with plaintext / TLS inside x CONNECT behaviours x inner behaviours; optional second concurrent connection (plain pass, or with behaviours / an intercepted tunnel of its own), optional later connection after all others have ended, pipelining (also of a request behind the hijacked one); %d scenarios over the spelling of the request (target form x Host header presence x protocol version, incl. requests that name no host and that only a request modifier makes routable); every schedule with <= %d deviations (one less for TLS scenarios; sequences of three exchanges: <= 1; thorough, the audit's scenarios: <= 2)", len(scen), nAdded, map[string]int{"quick": 2, "thorough": 3}[tier], nSpelled, map[string]int{"quick": 1, "thorough": 3}[tier])
